@@ -111,12 +111,24 @@ def code_data_from_json(value: object) -> CodeData:
     # string constants
     if "filename" in value:
         value["filename"] = constant_value_from_json(value["filename"])
+    # The same goes for the names, they are only identifiers if they come from source
+    if "name" in value:
+        value["name"] = string_from_json(value["name"])
+    if "freevars" in value:
+        value["freevars"] = strings_from_json(value["freevars"])
     if "type" in value:
         tp = copy(value["type"])
         if "docstring" in tp:
             tp["docstring"] = constant_value_from_json(tp["docstring"])
         if "args" in tp:
-            tp["args"] = Args(**lists_values_to_tuples(tp["args"]))
+            tp["args"] = Args(
+                **{
+                    k: strings_from_json(v)
+                    if isinstance(v, list)
+                    else string_from_json(v)
+                    for k, v in tp["args"].items()
+                }
+            )
         value["type"] = Function(**tp)
     if "flags" in value:
         value["flags"] = frozenset(value["flags"])
@@ -129,6 +141,17 @@ def code_data_from_json(value: object) -> CodeData:
             **lists_values_to_tuples(value["_additional_line"])
         )
     return CodeData(**lists_values_to_tuples(value))
+
+
+def string_from_json(value: object) -> str:
+    """
+    Parse a JSON value into a string, which is encoded like a string constant.
+    """
+    return cast(str, constant_value_from_json(value))
+
+
+def strings_from_json(value: list) -> tuple:
+    return tuple(map(string_from_json, value))
 
 
 def lists_values_to_tuples(d):
@@ -161,9 +184,9 @@ def arg_from_json(value: object) -> Arg:
     if "target" in value:
         return Jump(**value)
     if "name" in value:
-        return Name(**value)
+        return Name(**{**value, "name": string_from_json(value["name"])})
     if "varname" in value:
-        return Varname(**value)
+        return Varname(**{**value, "varname": string_from_json(value["varname"])})
     if "constant" in value:
         value = copy(value)
         if isinstance(value["constant"], dict) and "filename" in value["constant"]:
@@ -172,9 +195,9 @@ def arg_from_json(value: object) -> Arg:
             value["constant"] = constant_value_from_json(value["constant"])
         return Constant(**value)
     if "freevar" in value:
-        return Freevar(**value)
+        return Freevar(**{**value, "freevar": string_from_json(value["freevar"])})
     if "cellvar" in value:
-        return Cellvar(**value)
+        return Cellvar(**{**value, "cellvar": string_from_json(value["cellvar"])})
     if "_arg" in value:
         return NoArg(**value)
     raise ValueError(f"Unsupported arg type: {type(value)}")
